@@ -550,3 +550,135 @@ pub fn sweep_tof32_small(args: &[String]) -> i32 {
     println!("DONE checked={} mismatches={}", checked, mism);
     0
 }
+
+// ---------------------------------------------------------------------
+// f32 hard cases: all (c, n) with c < 2^32 whose value c / 10^n lies extremely close to the midpoint of two
+// adjacent f32 values (the inputs on which a conversion that rounds twice, e.g. via f64, goes wrong)
+
+fn pow2_mod(e: u32, m: u128) -> u128 {
+    // 2^e mod m, m < 2^60
+    let mut r: u128 = 1 % m;
+    for _ in 0..e {
+        r = (r << 1) % m;
+    }
+    r
+}
+
+/// floor(frac(2^sh / ten) * 2^128) for sh >= 0; floor(2^(128+sh) / ten) for sh < 0 (then 2^sh / ten < 1).
+fn beta_frac_fp(sh: i32, ten: u128) -> u128 {
+    if sh >= 0 {
+        let r0 = pow2_mod(sh as u32, ten); // < ten < 2^60
+        let a = r0 << 64; // < 2^124
+        let q1 = a / ten;
+        let rem = a % ten;
+        let q2 = (rem << 64) / ten;
+        (q1 << 64) | (q2 & 0xffff_ffff_ffff_ffff)
+    } else {
+        // 2^(128 - k) / ten with k = -sh in 1..=9
+        (1_u128 << (128 + sh) as u32) / ten
+    }
+}
+
+/// `--sweep-tof32-hard <nthreads> <log2 of the closeness threshold, e.g. 26>`
+pub fn sweep_tof32_hard(args: &[String]) -> i32 {
+    let nthreads: usize = args[0].parse().expect("nthreads");
+    let thr_bits: u32 = args.get(1).map(|s| s.parse().expect("bits")).unwrap_or(26);
+    // tasks: (n, e) binades
+    let mut tasks: Vec<(u32, i32)> = Vec::new();
+    for n in 0..=18_u32 {
+        for e in -64..32_i32 {
+            tasks.push((n, e));
+        }
+    }
+    let tasks = std::sync::Arc::new(tasks);
+    let next = std::sync::Arc::new(std::sync::atomic::AtomicUsize::new(0));
+    let mut handles = Vec::new();
+    for _ in 0..nthreads {
+        let tasks = tasks.clone();
+        let next = next.clone();
+        handles.push(std::thread::spawn(move || {
+            let mut scanned = 0_u64;
+            let mut cands = 0_u64;
+            let mut checked = 0_u64;
+            let mut mism = 0_u64;
+            let mut lines: Vec<String> = Vec::new();
+            loop {
+                let i = next.fetch_add(1, std::sync::atomic::Ordering::Relaxed);
+                if i >= tasks.len() {
+                    break;
+                }
+                let (n, e) = tasks[i];
+                let ten = 10_u128.pow(n);
+                // c in [ceil(ten * 2^e), ceil(ten * 2^(e+1))) intersected with [1, 2^32)
+                let lo = if e >= 0 {
+                    ten.checked_shl(e as u32).unwrap_or(u128::MAX)
+                } else {
+                    let k = (-e) as u32;
+                    (ten + (1_u128 << k) - 1) >> k
+                };
+                let hi = if e + 1 >= 0 {
+                    ten.checked_shl((e + 1) as u32).unwrap_or(u128::MAX)
+                } else {
+                    let k = (-(e + 1)) as u32;
+                    (ten + (1_u128 << k) - 1) >> k
+                };
+                let lo = std::cmp::max(lo, 1);
+                let hi = std::cmp::min(hi, 1_u128 << 32);
+                if lo >= hi {
+                    continue;
+                }
+                let fp = beta_frac_fp(23 - e, ten);
+                // scan with the top 64 bits of the fixed-point fraction (accumulated error < 2^-32, far below the
+                // closeness threshold); candidates are then checked exactly
+                let fp64 = (fp >> 64) as u64;
+                let mut s = ((lo as u128).wrapping_mul(fp) >> 64) as u64;
+                let mut c = lo as u64;
+                let hi = hi as u64;
+                let half64: u64 = 1 << 63;
+                let thr64: u64 = 1 << (64 - thr_bits);
+                let tie64: u64 = 1 << 30; // distance below 2^-34: treated as an exact tie
+                while c < hi {
+                    let d = if s >= half64 { s - half64 } else { half64 - s };
+                    // exact ties are abundant (every odd multiple of half an ulp): check one in 61 of them; check
+                    // EVERY near-but-not-exact midpoint
+                    if d < thr64 && (d >= tie64 || c % 61 == 0) {
+                        cands += 1;
+                        for cc in [c.saturating_sub(1), c, c + 1] {
+                            if cc == 0 || cc >= 1 << 32 {
+                                continue;
+                            }
+                            let want = ref_tof32_small(cc, n);
+                            let got = f32::from(Decimal::new_raw(cc as i128, n as u8)).to_bits();
+                            let gotn = f32::from(Decimal::new_raw(-(cc as i128), n as u8)).to_bits();
+                            checked += 2;
+                            if got != want || gotn != (want | 0x8000_0000) {
+                                mism += 1;
+                                if lines.len() < 20 {
+                                    lines.push(format!("MISMATCH tof32 D{}:{} got {} / {} want {}", cc, n, got, gotn, want));
+                                }
+                            }
+                        }
+                    }
+                    s = s.wrapping_add(fp64);
+                    c += 1;
+                    scanned += 1;
+                }
+            }
+            (scanned, cands, checked, mism, lines)
+        }));
+    }
+    let (mut scanned, mut cands, mut checked, mut mism) = (0_u64, 0_u64, 0_u64, 0_u64);
+    for h in handles {
+        let (s, k, c, m, lines) = h.join().expect("sweep thread panicked");
+        scanned += s;
+        cands += k;
+        checked += c;
+        mism += m;
+        for l in lines {
+            println!("{}", l);
+        }
+    }
+    println!("INFO scanned={} candidates={}", scanned, cands);
+    println!("DONE checked={} mismatches={}", checked, mism);
+    0
+}
